@@ -19,6 +19,9 @@
     M.apply / add_shot         draw over the SORTED targets, the recorded row in the order of
                                the gate's qubits, `if self._samples: append else: [row]`
     MeasurementSymbol.outcome  `result.samples(binary=True)[-1][index]`
+    ParametrizedGate.substitute_symbols (gates/abstract.py)
+                               every symbolic parameter is evaluated with every free symbol
+                               replaced by its `outcome()` (`QOp.pgate`)
 
   The simulator itself is a parameter (`Sem`): state vectors (`applyGate`, `collapseState`) and
   density matrices (`applyGateDM`, `collapseDM`) are two instances.  Randomness is an input: the
@@ -42,6 +45,11 @@ inductive QOp (G : Type)
   /-- gate whose parameter is symbol `j` of the `m`-th measurement gate of the queue: applied
   iff the recorded outcome is 1 (`RX(q, theta=pi*symbol)`) -/
   | cgate (g : G) (m j : Nat)
+  /-- gate whose parameters are sympy expressions in measurement symbols: `uses` lists the
+  symbols `(measurement gate, bit)` in the order in which `f` expects their values, `f` maps the
+  values to the gate that `substitute_symbols()` leaves (every symbol is replaced by
+  `symbol.outcome()`, the parameters become floats, the expressions are kept for the next shot) -/
+  | pgate (f : List Nat → G) (uses : List (Nat × Nat))
 
 /-- `MeasurementResult._samples` of one gate while the loop runs. -/
 abbrev Cache := Option (List (List Nat))
@@ -83,6 +91,9 @@ def passQueue (S : Sem σ G) : List (QOp G) → Nat → Pass σ → Pass σ
   | .cgate g m' j :: ops, m, p =>
     passQueue S ops m
       { p with state := if lastBit p.caches m' j = 1 then S.gate g p.state else p.state }
+  | .pgate f uses :: ops, m, p =>
+    passQueue S ops m
+      { p with state := S.gate (f (uses.map fun e => lastBit p.caches e.1 e.2)) p.state }
 
 /-- targets of the terminal measurements with their measurement index, in queue order. -/
 def finals : List (QOp G) → Nat → List (Nat × List Nat)
@@ -181,6 +192,7 @@ def wellFormed : List (QOp G) → Nat → (Nat → Bool) → Bool
   | .gate _ :: ops, m, ok => wellFormed ops m ok
   | .meas _ c :: ops, m, ok => wellFormed ops (m + 1) (fun i => if i = m then c else ok i)
   | .cgate _ m' _ :: ops, m, ok => ok m' && wellFormed ops m ok
+  | .pgate _ uses :: ops, m, ok => uses.all (fun e => ok e.1) && wellFormed ops m ok
 
 /-- state-vector simulator. -/
 def svSem {α : Type} [Zero α] [Add α] [Mul α] : Sem (Lab → α) (MGate α) :=
